@@ -1,7 +1,5 @@
 package parse
 
-import "fmt"
-
 // parseExpr parses an expression.
 func (t *Tree) parseExpr() (Expr, error) {
 	expr, err := t.parseBinaryExpr(0)
@@ -166,6 +164,7 @@ func (t *Tree) parseOuterExpr(expr Expr) (Expr, error) {
 //
 //	{% if 10 is divisible by(3) %}
 func (t *Tree) parseRightTestOperand(prev *NameExpr) (*TestExpr, error) {
+	first := t.peekNonSpace()
 	right, err := t.parseInnerExpr()
 	if err != nil {
 		return nil, err
@@ -190,7 +189,7 @@ func (t *Tree) parseRightTestOperand(prev *NameExpr) (*TestExpr, error) {
 		}
 		return &TestExpr{r}, nil
 	default:
-		return nil, fmt.Errorf(`Expected name or function, got "%v"`, right)
+		return nil, newUnexpectedTokenError(first, tokenName)
 	}
 }
 
